@@ -1,2 +1,3 @@
 pub mod chunk;
 pub mod ts;
+pub mod amf0;
